@@ -250,7 +250,7 @@ B('split-local-rename', (TH, "        c = [secrets.randbelow(order) for _ in ran
 # ---------------------------------------------------------------- FX / PAI
 M('add-integral-or', ['C03'], (RT, "            await self.returnType((stype, a.integral and b.integral))\n        a, b = await self.gather(a, b)\n        return a + b", "            await self.returnType((stype, a.integral or b.integral))\n        a, b = await self.gather(a, b)\n        return a + b"))
 M('mul-flag-drop-a', ['C03', 'C02'], (RT, "            await self.returnType((stype, a_integral and (b_integral or z == f)))", "            await self.returnType((stype, b_integral or z == f))"))
-M('in_prod-flag-any', ['C03'], (RT, "            x_integral = all(a.integral for a in x)\n            y_integral", "            x_integral = any(a.integral for a in x)\n            y_integral"))
+M('in_prod-flag-any', ['C03'], (RT, "            x_integral = all(a.integral for a in x)\n            y_integral = all(a.integral for a in y)\n            await self.returnType((stype, x_integral and y_integral))", "            x_integral = any(a.integral for a in x)\n            y_integral = all(a.integral for a in y)\n            await self.returnType((stype, x_integral and y_integral))"))
 M('prod-internal-or', ['C03'], (RT, "                integral[n%2:] = [integral[i] and integral[i+1] for i in range(n%2, n, 2)]", "                integral[n%2:] = [integral[i] or integral[i+1] for i in range(n%2, n, 2)]"))
 M('schur-shift-and', ['C03', 'C02'], (RT, "            if f and (x_integral or y_integral):\n                x[i] >>= f  # NB: in-place rshift", "            if f and (x_integral and y_integral):\n                x[i] >>= f  # NB: in-place rshift"))
 M('matrix-trunc-or', ['C03', 'C02'], (RT, "        if f and not A_integral and not B_integral:\n            C = self.trunc(C, f=f, l=stype.bit_length)", "        if f and not (A_integral and B_integral):\n            C = self.trunc(C, f=f, l=stype.bit_length)"))
